@@ -7,6 +7,7 @@ import vlib
 
 sys.path.insert(0, os.path.join(vlib.ROOT, "lib"))
 import c13lang  # noqa: E402
+import c13machine  # noqa: E402
 
 SLOT = 24  # unsafe.Sizeof(value.Value)
 
@@ -113,15 +114,23 @@ def run(ctx):
         "(live frames' fp, sp/fp, every upvalue on the open list, each exactly once) leaves the offset view unchanged for every "
         "new base address (C10_grow_invisible); the formulas of the unfixed code do not (C10_grow_old_refuted: negated frame offsets, "
         "open upvalues not rebased / negated / left in the old array). PROVED ONLY BOUNDED (C10_run_indep_bounded, exhaustive vm_compute "
-        "over traces of <= 6 operations from a 19-operation alphabet): reads are the same for two different initial bases/capacities and "
-        "any placement of growth steps that does not overflow the capacity. NOT PROVED, only differential-tested (stream c10.env): that the Go code is the model, "
-        "everything outside the value stack (thread pool / queue / symbol-table presize / call-stack size), generators and async "
-        "frames; growth is only triggered at calls (70% rule), so a single frame needing more than 30% of the stack still overflows "
-        "silently - outside the model and outside what the generated programs reach.")
+        "over traces of <= 6 operations from a 23-operation alphabet): reads are the same for two different initial bases/capacities and "
+        "any placement of growth steps that does not overflow the capacity. TIED TO THE GO CODE at machine level: c10.machine runs seeded "
+        "operation traces on a real vm.Thread (hook vm/verif_c13.go: push/pop/locals/captureUpvalue/opCloseUpvalues/callBytecodeFunction/"
+        "restoreLastFrame/callBytecodeFunctionTCO/growValueStack, initial stacks of 4-64 slots so the 70% rule fires inside call chains) "
+        "and compares reads and the complete offset view with the extracted Coq machine; c10.indep replays every D-respecting trace "
+        "without its growth operations on a 4096-slot Thread and requires identical reads. NOT PROVED, only differential-tested (stream "
+        "c10.env): everything outside the value stack (thread pool / queue / symbol-table presize / call-stack size), generators and "
+        "async frames; growth is only triggered at calls (70% rule), so a single frame needing more than 30% of the stack still "
+        "overflows silently - outside the model and outside what the generated programs reach.")
     ctx.trusted_base += ["uintptr arithmetic modelled in unbounded Z (no wrap at 2^64); Go allocator returns an arbitrary new base",
                          "Python reference interpreter lib/c13lang.py (store semantics) as expected-output oracle for c10.env",
-                         "value.ValueSize = 24 bytes (checked by the stream: sizes below 24 are the <1slot class)"]
+                         "value.ValueSize = 24 bytes (checked by the stream: sizes below 24 are the <1slot class)",
+                         "hook /repo/vm/verif_c13.go (thin wrappers around the real Thread functions)"]
     ctx.run_proof_gate()
+    # machine level: real vm.Thread (hook vm/verif_c13.go) vs the extracted Coq machine, small initial stacks so that
+    # growValueStack runs inside call chains with open upvalues; then the same traces without growth on a big stack
+    c13machine.machine_stream(ctx, name="c10.machine", specname="c10.spec", quick=5000, thorough=300000, indep="c10.indep")
     elk = vlib.build_elk()
     rng = ctx.rng("c10.env")
     nprog = ctx.n(22, 400)
